@@ -23,6 +23,9 @@ use crate::world::{World, gen_world};
 
 thread_local! {
     pub static PANIC_INFO: RefCell<Option<(String, String)>> = const { RefCell::new(None) };
+    /// When set (while a replay file is being rendered), every execution records its complete
+    /// adapter event log here: the human-readable schedule / fault trace of the replay file.
+    pub static RECORD_LOGS: RefCell<Option<Vec<Vec<String>>>> = const { RefCell::new(None) };
 }
 
 pub fn install_panic_hook() {
@@ -317,7 +320,8 @@ pub fn row_to_model(r: &BTreeMap<Arc<str>, FieldValue>) -> Row {
 
 /// Run the real engine over the simulated adapter.
 pub fn exec(w: &Workload, opts: ExecOpts, sched: Tape) -> ExecOutcome {
-    let sim = make_sim(w, opts.cfg.clone(), sched, opts.record, opts.event_cap);
+    let recording = RECORD_LOGS.with(|r| r.borrow().is_some());
+    let sim = make_sim(w, opts.cfg.clone(), sched, opts.record || recording, opts.event_cap);
     sim.borrow_mut().only_start = opts.only_start;
     let adapter = Arc::new(SimAdapter::new(sim.clone()));
     let mut raw_rows = vec![];
@@ -402,6 +406,30 @@ pub fn exec(w: &Workload, opts: ExecOpts, sched: Tape) -> ExecOutcome {
             ),
             Err(_) => (0, 0, 0, 0, Fires::default(), vec![], vec![], Tape::replaying(vec![]), 0),
         };
+    if recording {
+        let mut lines: Vec<String> = vec![format!(
+            "# execution: schedule={} hints={} consumer={:?} only_start={:?} ending={}",
+            if opts.cfg.random { "random" } else { "lazy(S0)" },
+            opts.cfg.any_hints(),
+            opts.consumer,
+            opts.only_start,
+            match &ending {
+                Ending::Panic(i) => format!("panic at {}", i.location),
+                other => format!("{other:?}").chars().take(60).collect(),
+            }
+        )];
+        lines.extend(log.iter().take(400).map(|e| format!("{} {}", e.seq, e.text)));
+        if log.len() > 400 {
+            lines.push(format!("... {} more events", log.len() - 400));
+        }
+        RECORD_LOGS.with(|r| {
+            if let Some(v) = r.borrow_mut().as_mut() {
+                if v.len() < 12 {
+                    v.push(lines);
+                }
+            }
+        });
+    }
     ExecOutcome {
         ending,
         raw_rows,
